@@ -969,7 +969,7 @@ CLAIMS["C14"]["text"] += (
     "only as a method / only as an extern / nowhere; main with a parameter, a result, a type parameter; 12 projects).")
 CLAIMS["C14"]["note"] = CLAIMS["C14"]["note"].replace(
     "No defect found on the tree.",
-    "Defects found and fixed in the repository copy: see known_findings.json (C14, status fixed) - the latest (round 11, fece0bd): whole-program "
+    "Defects found and fixed in the repository copy: see known_findings.json (C14, status fixed) - the latest (round 11, 3e0a664): whole-program "
     "compilation accepted a Main package without a main function and emitted func main() { main0() } with no main0, while link rejects it.")
 
 def main():
